@@ -9,6 +9,7 @@
 -/
 import JSV.Proofs.InvDraft
 import JSV.Proofs.InvLater
+import JSV.Proofs.InvVocab
 import JSV.Proofs.ResDraft
 import JSV.Proofs.ResLater
 import JSV.Proofs.DflVal
@@ -343,6 +344,72 @@ theorem draft7_validateDefaults_ignores_dynamicRef (env : VEnv) (hd : env.draft 
 /-- under 2020-12 nothing changed: the Spec reads the whole schema object -/
 theorem draft2020_vocab (env : Spec.Env) (hd : env.draft = .d2020) (n : Node) : Spec.vocab env.draft n = n := by
   rw [hd]; rfl
+
+/-! ## each draft sees only its own vocabulary
+
+The two statements above (`draft7_model_ignores` / `draft7_ignores_later_keywords`) put together and completed: to a
+validation under draft-07 EVERY keyword that only 2020-12 defines is an unknown keyword, and to a validation under 2020-12
+every draft-07-only keyword is.  What the code does, keyword by keyword (`vocabulary_table` below classifies every field
+of the Go struct):
+
+* evaluator and Spec, draft-07: `prefixItems`, `dependentRequired`, `dependentSchemas`, `minContains`, `maxContains`,
+  `unevaluatedItems`, `unevaluatedProperties`, `$dynamicRef` are not read (`st.rs.draft` is tested before each);
+  `$anchor` and `$dynamicAnchor` are read by no evaluation under either draft (the evaluator reads the `anchors` table
+  Resolve built, which has entries for them under 2020-12 only: `draft7_resolve_ignores_anchors`);
+* evaluator and Spec, 2020-12: `dependencies` (both forms), array-form `items`, `additionalItems` are not read;
+* Schema.Resolve is another matter for the keywords that hold SUBSCHEMAS (`prefixItems`, `dependentSchemas`,
+  `unevaluatedItems`, `unevaluatedProperties`; `dependencies`, array-form `items`, `additionalItems`): whatever the draft,
+  checkStructure walks them (a nil or shared subschema is an error), checkLocal compiles their patterns, resolveURIs gives
+  their `$id`s a base URI and registers them, resolveRefs resolves their `$ref`s (loading documents), and they are
+  addressable by JSON Pointer.  Erasing them is therefore visible to Resolve (`resolve_sees_ignored_subschemas` below) and
+  no such claim is made; the subschemas under an ignored keyword are resolved and never applied.
+* `$vocabulary` is not ignored under draft-07: checkLocal refuses it in every schema object whose own `$schema` is not
+  the 2020-12 URI (`draft7_vocabulary_keyword_refused`). -/
+
+/-- **Draft-07 sees only the draft-07 vocabulary.**  With the draft-07 `$schema`, erasing from every schema object of
+    the store ALL the keywords that only 2020-12 defines and that hold no `$defs`-like container — `prefixItems`,
+    `dependentRequired`, `dependentSchemas`, `minContains`, `maxContains`, `unevaluatedItems`, `unevaluatedProperties`,
+    `$dynamicRef`, `$anchor`, `$dynamicAnchor` (`Inv.eraseNon7`) — changes no outcome of the Spec (definedness, verdict,
+    evaluated sets; every fuel, scope, schema, instance), nor of the evaluator (verdict, annotations, panic, fuel; every
+    stack, Go value, schema), nor of the entry point `(*Resolved).Validate`. -/
+theorem draft7_vocabulary (env : VEnv) (hd : env.draft = .d7) :
+    (∀ fuel scope s j,
+      Spec.evalFuel (specEnvOf { env with st := env.st.map Inv.eraseNon7 }) fuel scope s j
+        = Spec.evalFuel (specEnvOf env) fuel scope s j) ∧
+    (∀ fuel stack i s,
+      Go.validateFuel { env with st := env.st.map Inv.eraseNon7 } fuel stack i s
+        = Go.validateFuel env fuel stack i s) ∧
+    (∀ supported fuel root inst,
+      Go.validate { env with st := env.st.map Inv.eraseNon7 } supported fuel root inst
+        = Go.validate env supported fuel root inst) :=
+  ⟨Inv.evalFuel_non7 (specEnvOf env) hd, Inv.validateFuel_non7 env hd,
+   Inv.validate_map_of env Inv.eraseNon7 (fun _ => rfl) (Inv.validateFuel_non7 env hd)⟩
+
+/-- **2020-12 sees only the 2020-12 vocabulary.**  With no `$schema` or the 2020-12 one, erasing from every schema object
+    the draft-07-only keywords — `dependencies` in both forms, array-form `items`, `additionalItems`
+    (`Inv.eraseNon2020`) — changes no outcome of the Spec, nor of the evaluator, nor of `(*Resolved).Validate`.
+    (A fragment-only `$id`, the draft-07 spelling of an anchor, is not ignored under 2020-12: Resolve refuses it.) -/
+theorem draft2020_vocabulary (env : VEnv) (hd : env.draft = .d2020) :
+    (∀ fuel scope s j,
+      Spec.evalFuel (specEnvOf { env with st := env.st.map Inv.eraseNon2020 }) fuel scope s j
+        = Spec.evalFuel (specEnvOf env) fuel scope s j) ∧
+    (∀ fuel stack i s,
+      Go.validateFuel { env with st := env.st.map Inv.eraseNon2020 } fuel stack i s
+        = Go.validateFuel env fuel stack i s) ∧
+    (∀ supported fuel root inst,
+      Go.validate { env with st := env.st.map Inv.eraseNon2020 } supported fuel root inst
+        = Go.validate env supported fuel root inst) :=
+  ⟨Inv.evalFuel_non2020 (specEnvOf env) hd, Inv.validateFuel_non2020 env hd,
+   Inv.validate_map_of env Inv.eraseNon2020 (fun _ => rfl) (Inv.validateFuel_non2020 env hd)⟩
+
+/-- the Spec halves for an arbitrary Spec environment (any `refTarget`, `dynDecl` …, not only those of Resolve) -/
+theorem draft7_vocabulary_spec (env : Spec.Env) (hd : env.draft = .d7) : ∀ fuel scope s j,
+    Spec.evalFuel { env with st := env.st.map Inv.eraseNon7 } fuel scope s j = Spec.evalFuel env fuel scope s j :=
+  Inv.evalFuel_non7 env hd
+
+theorem draft2020_vocabulary_spec (env : Spec.Env) (hd : env.draft = .d2020) : ∀ fuel scope s j,
+    Spec.evalFuel { env with st := env.st.map Inv.eraseNon2020 } fuel scope s j = Spec.evalFuel env fuel scope s j :=
+  Inv.evalFuel_non2020 env hd
 
 /-! ## documents loaded through `$ref` -/
 
@@ -769,5 +836,90 @@ example : (Res.bind (Go.resolve mixedEnv' 4 0 "http://x/root.json") fun rs =>
 example : (Res.bind (Go.resolve mixedEnv' 4 0 "http://x/root.json") fun rs =>
     Go.validate { st := mixedEnv'.st, draft := rs.draft, infos := rs.infos, reMatch := fun _ _ => false, hash := fun _ => 0 }
       Generated.supportedVersions 4 0 (GoVal.ofJson (.str "a"))) = .err := by decide +kernel
+
+/-! ### each draft sees only its own vocabulary: the witness documents -/
+
+/-- `exStore2` (`items` array + `additionalItems` + `prefixItems` + `dependencies`) without the 2020-12-only keyword … -/
+def exStore2Non7 : Store := #[
+  { itemsArray := some [1], additionalItems := some 2, dependencyStrings := some [("a", some ["b"])] },
+  { type := "string" }, { not := some 3 }, {}, { type := "number" } ]
+/-- … and without the draft-07-only ones -/
+def exStore2Non2020 : Store := #[
+  { prefixItems := some [4] }, { type := "string" }, { not := some 3 }, {}, { type := "number" } ]
+example : exStore2.map Inv.eraseNon7 = exStore2Non7 := by simp [exStore2, exStore2Non7, Inv.eraseNon7]
+example : exStore2.map Inv.eraseNon2020 = exStore2Non2020 := by simp [exStore2, exStore2Non2020, Inv.eraseNon2020]
+/-- `draft7_vocabulary` applied -/
+example (fuel : Nat) (i : GoVal) :
+    Go.validateFuel { exEnv2 with st := exStore2.map Inv.eraseNon7 } fuel [] i 0 = Go.validateFuel exEnv2 fuel [] i 0 :=
+  (draft7_vocabulary exEnv2 rfl).2.1 fuel [] i 0
+/-- its hypothesis `env.draft = .d7` cannot be dropped: under 2020-12 `prefixItems` rejects `["x"]` (not a number), and
+    the erased document accepts it -/
+example : Spec.valid (specEnvOf { exEnv2 with draft := .d2020 }) 4 0 (.arr [.str "x"]) = some false := by decide
+example : Spec.valid (specEnvOf { exEnv2 with draft := .d2020, st := exStore2Non7 }) 4 0 (.arr [.str "x"]) = some true := by
+  decide
+example : Go.validate { exEnv2 with draft := .d2020 } [""] 4 0 (GoVal.ofJson (.arr [.str "x"])) = .err := by decide
+example : Go.validate { exEnv2 with draft := .d2020, st := exStore2Non7 } [""] 4 0 (GoVal.ofJson (.arr [.str "x"])) = .ok () := by
+  decide
+/-- `draft2020_vocabulary` applied -/
+example (fuel : Nat) (i : GoVal) :
+    Go.validateFuel { exEnv2 with draft := .d2020, st := exStore2.map Inv.eraseNon2020 } fuel [] i 0
+      = Go.validateFuel { exEnv2 with draft := .d2020 } fuel [] i 0 :=
+  (draft2020_vocabulary { exEnv2 with draft := .d2020 } rfl).2.1 fuel [] i 0
+/-- its hypothesis `env.draft = .d2020` cannot be dropped: under draft-07 array-form `items` rejects `[1]` (not a string)
+    and `dependencies` rejects `{"a": null}`; the erased document accepts both -/
+example : Spec.valid (specEnvOf exEnv2) 4 0 (.arr [.num 1]) = some false := by decide
+example : Spec.valid (specEnvOf { exEnv2 with st := exStore2Non2020 }) 4 0 (.arr [.num 1]) = some true := by decide
+example : Go.validate exEnv2 [""] 4 0 (GoVal.ofJson (.obj [("a", .null)])) = .err := by decide
+example : Go.validate { exEnv2 with st := exStore2Non2020 } [""] 4 0 (GoVal.ofJson (.obj [("a", .null)])) = .ok () := by decide
+
+/-- `{"dependentRequired": {"a": ["b"]}, "dependentSchemas": {"c": false}, "$anchor": "top"}`: nothing under draft-07,
+    two assertions under 2020-12 -/
+def depStore : Store := #[
+  { dependentRequired := some [("a", some ["b"])], dependentSchemas := some [("c", 1)], anchor := "top" },
+  { not := some 2 }, {} ]
+def depInfos : List (NodeId × Info) :=
+  [(0, { path := "root", base := some 0 }), (1, { base := some 0 }), (2, { base := some 0 })]
+def depEnv7 : VEnv :=
+  { st := depStore, draft := .d7, infos := depInfos, reMatch := fun _ _ => false, hash := fun _ => 0 }
+example : depStore.map Inv.eraseNon7 = #[{}, { not := some 2 }, {}] := by simp [depStore, Inv.eraseNon7]
+example : Spec.valid (specEnvOf depEnv7) 4 0 (.obj [("a", .null), ("c", .null)]) = some true := by decide
+example : Go.validate depEnv7 [""] 4 0 (GoVal.ofJson (.obj [("a", .null), ("c", .null)])) = .ok () := by decide
+example : Spec.valid (specEnvOf { depEnv7 with draft := .d2020 }) 4 0 (.obj [("a", .null)]) = some false := by decide
+example : Spec.valid (specEnvOf { depEnv7 with draft := .d2020 }) 4 0 (.obj [("c", .null)]) = some false := by decide
+example : Go.validate { depEnv7 with draft := .d2020 } [""] 4 0 (GoVal.ofJson (.obj [("a", .null)])) = .err := by decide
+example : Go.validate { depEnv7 with draft := .d2020 } [""] 4 0 (GoVal.ofJson (.obj [("c", .null)])) = .err := by decide
+
+/-! #### what is NOT ignored (Schema.Resolve) -/
+
+/-- `resolve_sees_ignored_subschemas`, draft-07: `{"$schema": draft-07, "prefixItems": [{"$ref": "#/nosuch"}]}` does not
+    resolve — the subschema under the unknown keyword `prefixItems` is walked and its dangling `$ref` is an error — while
+    the document without the keyword resolves.  (An evaluation never applies that subschema.) -/
+example : (Go.resolve (renvOf #[{ schema := d7URI, prefixItems := some [1] }, { ref := "#/nosuch" }]) 3 0 "").isOk = false := by
+  decide +kernel
+example : (Go.resolve (renvOf #[{ schema := d7URI }, { ref := "#/nosuch" }]) 3 0 "").isOk = true := by decide +kernel
+/-- the same under 2020-12 with the draft-07 keywords `additionalItems` and `dependencies` -/
+example : (Go.resolve (renvOf #[{ schema := d20URI, additionalItems := some 1 }, { ref := "#/nosuch" }]) 3 0 "").isOk = false := by
+  decide +kernel
+example : (Go.resolve (renvOf #[{ schema := d20URI, dependencySchemas := some [("a", 1)] }, { ref := "#/nosuch" }]) 3 0 "").isOk
+    = false := by
+  decide +kernel
+example : (Go.resolve (renvOf #[{ schema := d20URI }, { ref := "#/nosuch" }]) 3 0 "").isOk = true := by decide +kernel
+/-- … and a `$ref` may designate a schema under an ignored keyword, by JSON Pointer or through the `$id` resolveURIs
+    registered for it: `{"$schema": draft-07, "$ref": "#/prefixItems/0", "prefixItems": [{"type": "string"}]}` resolves to
+    it and rejects `1` -/
+example : resolveThenValidate #[{ schema := d7URI, ref := "#/prefixItems/0", prefixItems := some [1] }, { type := "string" }]
+    (.num 1) = .err := by decide +kernel
+/-- `draft7_vocabulary_keyword_refused`: `$vocabulary` is not an ignored keyword under draft-07 — checkLocal refuses every
+    schema object carrying it whose own `$schema` is not the 2020-12 URI -/
+example : (Go.resolve (renvOf #[{ schema := d7URI, vocabulary := some [("https://json-schema.org/draft/2020-12/vocab/core", true)] }])
+    3 0 "").isOk = false := by decide +kernel
+example : (Go.resolve (renvOf #[{ schema := d7URI }]) 3 0 "").isOk = true := by decide +kernel
+example : (Go.resolve (renvOf #[{ schema := d20URI, vocabulary := some [("https://json-schema.org/draft/2020-12/vocab/core", true)] }])
+    3 0 "").isOk = true := by decide +kernel
+/-- basicChecks reads the draft-07 forms whatever the draft (a Go-built schema only: one JSON `items` member yields one
+    of the two fields): `Items` and `ItemsArray` both set is refused under 2020-12 too -/
+example : (Go.resolve (renvOf #[{ schema := d20URI, items := some 1, itemsArray := some [2] }, {}, {}]) 3 0 "").isOk = false := by
+  decide +kernel
+example : (Go.resolve (renvOf #[{ schema := d20URI, items := some 1 }, {}, {}]) 3 0 "").isOk = true := by decide +kernel
 
 end JSV.C02
